@@ -132,6 +132,10 @@ func runHTTPHistory(h History) HistObs {
 		case "close":
 			err := c.Close()
 			o.OK, o.Err = err == nil, errText(err)
+		case "srvdie":
+			// open connections (keep-alive, event streams) are cut; until the next Initialize step scripts the server
+			// again, every request is recorded and its connection reset
+			s.setMode(mDown, 0)
 		case "getstate":
 		}
 		// A step is charged with the HTTP requests the server received while it ran. Not charged: the
@@ -344,6 +348,37 @@ func runStdioHistory(h History, dir string) HistObs {
 		case "close":
 			err := c.Close()
 			o.OK, o.Err = err == nil, errText(err)
+		case "srvdie":
+			// kill the server process(es) of this client and wait until the library has reaped them (the entry
+			// leaves /proc); the short pause lets the reaping goroutine finish what it does right after Wait returns
+			// (it is not part of any decision)
+			killed := 0
+			for pid := range childrenOf(recPath) {
+				known[pid] = true
+				if !alive(pid) {
+					continue
+				}
+				if syscall.Kill(pid, syscall.SIGKILL) != nil {
+					continue
+				}
+				killed++
+				dl := time.Now().Add(10 * time.Second)
+				for time.Now().Before(dl) {
+					if pp, _, ok := procStat(pid); !ok || pp != os.Getpid() {
+						break
+					}
+					time.Sleep(200 * time.Microsecond)
+				}
+				if pp, _, ok := procStat(pid); ok && pp == os.Getpid() {
+					o.Note = strings.TrimSpace(o.Note + fmt.Sprintf(" killed server process %d not reaped within 10s", pid))
+				}
+			}
+			if killed == 0 {
+				o.Note = strings.TrimSpace(o.Note + " no live server process")
+			} else {
+				o.Note = strings.TrimSpace(o.Note + fmt.Sprintf(" killed %d server process(es)", killed))
+				time.Sleep(20 * time.Millisecond)
+			}
 		case "getstate":
 		}
 		o.State = string(c.GetState())
